@@ -120,12 +120,16 @@ func c13Run(c *core.Case, o *core.Outcome) {
 		// ramp (or constant) stage with `jitter: j`; the un-jittered rate is the same stage parsed with jitter 0
 		fileStage := ""
 		if profile != 6 && profile != 7 && r.IntN(8) == 0 {
-			fileStage = pick(r, "ramp", "ramp", "constant")
+			fileStage = pick(r, "ramp", "staged", "constant", "staged")
+			freq := pick(r, "100ms", "250ms", "1s", "2s")
 			a, bb := 1+r.IntN(400), 1+r.IntN(4000)
 			stage := func(jit float64) api.RateFunction {
 				body := fmt.Sprintf("  mode: ramp\n  start-rate: %d/1s\n  end-rate: %d/1s\n", a, bb)
 				if fileStage == "constant" {
 					body = fmt.Sprintf("  mode: constant\n  rate: %d/1s\n", a)
+				}
+				if fileStage == "staged" {
+					body = fmt.Sprintf("  mode: staged\n  stages: \"0s:%d,%ds:%d\"\n  iteration-frequency: %s\n", a, length, bb, freq)
 				}
 				y := fmt.Sprintf("scenario: s\nlimits:\n  max-duration: 100h\n  concurrency: 1\n  max-iterations: 0\n  ignore-dropped: true\ndefault:\n  distribution: none\n  jitter: 7\nstages:\n- duration: %ds\n%s  jitter: %g\n", length, body, jit)
 				rs, err := file.ParseConfigFile([]byte(y), time.Unix(0, 0))
